@@ -124,3 +124,38 @@ func VerifC01Sources() {
 	nd.Assert(err == nil || out == "", "output-or-error")
 	nd.Reach("C01.sources")
 }
+
+// VerifC01Pipeline: symbolic ASCII bytes inside objects and tags go through the whole
+// pipeline (Scan, expression lexer and parser, compiler, renderer): output or error, no panic.
+func VerifC01Pipeline() {
+	n := 2
+	if nd.Thorough() {
+		n = 3
+	}
+	nd.Bound("C01.pipeline_symbolic_bytes", n)
+	g := c05Ascii(nd.Choice(n + 1))
+	var src string
+	switch nd.Choice(9) {
+	case 0:
+		src = "a{{" + g + "}}b"
+	case 1:
+		src = "{% if " + g + " %}x{% endif %}"
+	case 2:
+		src = "{% for x in " + g + " %}{{ x }}{% endfor %}"
+	case 3:
+		src = "{% assign v = " + g + " %}{{ v }}"
+	case 4:
+		src = "{% cycle " + g + " %}"
+	case 5:
+		src = "{% case 1 %}{% when " + g + " %}w{% endcase %}"
+	case 6:
+		src = "{{ a | slice: " + g + " }}"
+	case 7:
+		src = "{{ a" + g + " }}"
+	case 8:
+		src = "{%" + g + "%}"
+	}
+	out, err := vRender(src, Bindings{"a": []any{1, "s"}, "b": 2})
+	nd.Assert(err == nil || out == "", "output-or-error")
+	nd.Reach("C01.pipeline")
+}
